@@ -27,6 +27,9 @@ from .c14 import (PA, SInt, ONP, OH, Cfg, Oracle, View, b_and, b_or, b_not, b_im
                   build_dof_manager, draw_member, dense_pa, _require, TRI1, TRI2, TRI2B)
 
 P = 'C02'
+# a non-identity over log / pow atoms (seen on a seeded regression) made z3 grow past 60 GB: every worker of this module caps z3's memory;
+# exceeding it is an ordinary solver failure (inconclusive), never a verdict
+z3.set_param('memory_max_size', 6000)
 REL_ASM = 'optimism/SparseMatrixAssembler.py'
 DEFINED = c14.DEFINED
 
@@ -316,6 +319,23 @@ def synthetic_material(c, density=None):
     return MaterialModel(compute_energy_density=energy, compute_initial_state=lambda: jnp.zeros(2), compute_state_new=state_new, density=density)
 
 
+def anisotropic_state_material(c, density=None):
+    """harness material whose energy density is NOT invariant under transposition of the displacement gradient and depends on a
+    non-symmetric tensorial internal variable (9 state variables = a 3x3 tensor per quadrature point):
+    W(H, Q) = a tr(H^T H) + b (Q : H)^2 + c H01^2 + d H01 H10.  Every isotropic repository material at a virgin state satisfies
+    W(H^T) = W(H), so a stiffness path that sees (grad u)^T instead of grad u is invisible with them."""
+    import jax.numpy as jnp
+    MaterialModel = _mods()[7].MaterialModel
+
+    def energy(H, Q, dt):
+        T = Q.reshape(3, 3)
+        return c[0] * jnp.tensordot(H, H) + c[1] * jnp.tensordot(T, H) ** 2 + c[2] * H[0, 1] ** 2 + c[3] * H[0, 1] * H[1, 0]
+
+    def state_new(H, Q, dt):
+        return Q + dt * (H @ Q.reshape(3, 3)).reshape(9)
+    return MaterialModel(compute_energy_density=energy, compute_initial_state=lambda: jnp.zeros(9), compute_state_new=state_new, density=density)
+
+
 def material(kind, E, nu, rho=None):
     M = _mods()
     props = {'elastic modulus': E, 'poisson ratio': nu}
@@ -331,10 +351,12 @@ def material(kind, E, nu, rho=None):
         return M[6].create_material_model_functions(dict(props, version='coupled'))
     if kind == 'synthetic':
         return synthetic_material([E, nu, E * nu], rho)
+    if kind == 'anisotropic_state':
+        return anisotropic_state_material([E, nu, E + nu, E * nu], rho)
     raise ValueError(kind)
 
 
-NSTATE = {'linear': 0, 'green_lagrange': 0, 'neohookean': 0, 'neohookean_coupled': 0, 'synthetic': 2}
+NSTATE = {'linear': 0, 'green_lagrange': 0, 'neohookean': 0, 'neohookean_coupled': 0, 'synthetic': 2, 'anisotropic_state': 9}
 
 
 def _jx_encoded(h):
@@ -508,6 +530,8 @@ def prove_atoms(c, name, spec, cap=60, order=('core', 'nlsat'), side=True, extra
         atoms = [atoms]
     base = (list(assumes) + c.side(True) if side else []) + list(extra)
     recs = []
+    import time as _time
+    spent = 0.0          # time spent on goals that are not free identities (many-atom specs: the obligation is not green any more, bound the work)
     for i, atom in enumerate(atoms):
         def concrete(vals, i=i):
             ci = c.conc_inputs(vals)
@@ -518,8 +542,12 @@ def prove_atoms(c, name, spec, cap=60, order=('core', 'nlsat'), side=True, extra
             ok = all(bool(x) for x in flat(list(ca))) if side else True
             return ok, catoms[i], dict(outputs=[onp.asarray(l).tolist() for l in jax.tree_util.tree_leaves(co)][:4])
         qname = '%s.%s' % (name, atom.name) if atom.name else name
-        rec = c.h.prove(qname, base, atom, inputs=c.inp, concrete=concrete, cap=cap, order=order)
-        if not side and rec is not None and rec.get('status') != 'discharged':
+        t_atom = _time.time()
+        rec = c.h.prove(qname, base, atom, inputs=c.inp, concrete=concrete, cap=cap if spent < 240 else min(cap, 20), order=order)
+        if not side and rec is not None and rec.get('status') != 'discharged' and (spent >= 240 or c.ctx.ufs):
+            # (goals over uninterpreted log / pow atoms: a counterexample search under the full encoding has no replayable models and has crashed nlsat)
+            spent += _time.time() - t_atom
+        elif not side and rec is not None and rec.get('status') != 'discharged':
             # not an identity of the expressions: decide the goal under the complete encoding (box, linear-solve relations, reciprocal
             # definitions), whose models are points of the real function and can be replayed
             full = list(assumes) + c.side(True) + list(extra)
@@ -542,7 +570,8 @@ def prove_atoms(c, name, spec, cap=60, order=('core', 'nlsat'), side=True, extra
                 rec = c.h.prove(qname, full + pins, atom, inputs=c.inp, concrete=concrete_full, cap=cap, order=('nlsat', 'core'),
                                 note=note + '; counterexample search with geometry and moduli pinned to the example values')
             else:
-                rec = c.h.prove(qname, full, atom, inputs=c.inp, concrete=concrete_full, cap=cap, order=('nlsat', 'core'), note=note)
+                rec = c.h.prove(qname, full, atom, inputs=c.inp, concrete=concrete_full, cap=min(cap, 60), order=('nlsat', 'core'), note=note)
+            spent += _time.time() - t_atom
         recs.append(rec)
     return recs
 
@@ -561,9 +590,10 @@ def stiffness_case(h, kind, mode, qdeg, label=None):
     ns = NSTATE[kind]
 
     def f(X, E, nu, U, Q):
+        import jax
         fs = S.fs(X, 'axisymmetric' if axi else 'cartesian')
         mech = M[0].create_mechanics_functions(fs, mode, material(kind, E, nu))
-        return mech.compute_element_stiffnesses(U, Q, 0.125)[0]
+        return mech.compute_element_stiffnesses(U, Q, 0.125)[0], jax.hessian(lambda u: mech.compute_strain_energy(u, Q, 0.125))(U)
     Z = onp.zeros((3, 2))
     ex = dict(X=_X0(S, axi), E=1.0, nu=0.3, U=Z + 0.05, Q=onp.zeros((1, S.nq, ns)) + 0.1)
     smp = lambda rng: [_rand_X(S, rng, axi), rng.uniform(0.5, 2.0), rng.uniform(-0.3, 0.45), rng.normal(size=(3, 2)) * 0.1, rng.normal(size=(1, S.nq, ns)) * 0.1]
@@ -572,16 +602,31 @@ def stiffness_case(h, kind, mode, qdeg, label=None):
 
 
 def _sym_spec(i, o):
+    o = o[0]
     return _box(i), Eq([o[a, k, b, l] for a, k, b, l in SYM_PAIRS], [o[b, l, a, k] for a, k, b, l in SYM_PAIRS], name='K_abij_eq_K_baji')
+
+
+def _hess_spec(i, o):
+    """the literal property statement on one element: the stiffness block is the second derivative of the energy that
+    compute_strain_energy integrates, w.r.t. the element's nodal displacements"""
+    K, H = o
+    return _box(i), Eq([K[p] for p in ALL_PAIRS], [H[p] for p in ALL_PAIRS], name='element_stiffness_is_hessian_of_the_strain_energy', scale=1.0)
+
+
+def _hess_spec_split(i, o):
+    K, H = o
+    return _box(i), [Eq(K[p], H[p], name='K_%d%d%d%d_is_d2E' % p, scale=1.0) for p in ALL_PAIRS if p[:2] <= p[2:]]
 
 
 def _sym_spec_split(i, o):
     """one atom per pair of entries (the monolithic query needs ~100 s for neo-Hookean / axisymmetric, a single pair 2-8 s)"""
+    o = o[0]
     return _box(i), [Eq(o[a, k, b, l], o[b, l, a, k], name='K_%d%d%d%d_eq_K_%d%d%d%d' % (a, k, b, l, b, l, a, k)) for a, k, b, l in SYM_PAIRS]
 
 
 STIFF_QUICK = [('linear', 'plane strain', 2), ('linear', 'axisymmetric', 2), ('green_lagrange', 'plane strain', 2), ('green_lagrange', 'axisymmetric', 2),
-               ('neohookean', 'plane strain', 1), ('neohookean', 'axisymmetric', 1), ('neohookean_coupled', 'plane strain', 2), ('synthetic', 'plane strain', 2)]
+               ('neohookean', 'plane strain', 1), ('neohookean', 'axisymmetric', 1), ('neohookean_coupled', 'plane strain', 2), ('synthetic', 'plane strain', 2),
+               ('anisotropic_state', 'plane strain', 2), ('anisotropic_state', 'axisymmetric', 2)]
 STIFF_THOROUGH = [('neohookean', 'plane strain', 2), ('synthetic', 'axisymmetric', 2), ('green_lagrange', 'axisymmetric', 4)]
 DESIGNED_NOT_REGISTERED.append(
     ('O2 element stiffness symmetric for neo-Hookean (both energy versions) / axisymmetric with the 3-point rule',
@@ -610,7 +655,10 @@ def _register_o2_symmetry():
             c = stiffness_case(h, kind, mode, qdeg)
             split = kind.startswith('neohookean') and mode == 'axisymmetric'
             prove_atoms(c, 'symmetry', _sym_spec_split if split else _sym_spec, cap=150, order=('core', 'nlsat'), side=False)
-        ob.__doc__ = 'element stiffness K[a,i,b,j] = K[b,j,a,i] exactly: jaxpr of MechanicsFunctions.compute_element_stiffnesses on one symbolic-coordinate triangle'
+            # (split = log/pow atoms: SMT core only; nlsat on a non-identity of this size has exhausted the worker's memory)
+            prove_atoms(c, 'hessian', _hess_spec_split if split else _hess_spec, cap=60 if split else 150, order=('core',) if split else ('core', 'nlsat'), side=False)
+        ob.__doc__ = ('element stiffness K[a,i,b,j] = K[b,j,a,i] exactly, and K = jax.hessian of MechanicsFunctions.compute_strain_energy w.r.t. the nodal displacements: '
+                      'jaxprs of the factory functions on one symbolic-coordinate triangle')
         obligation(P, 'O2.element_stiffness_symmetric[%s/%s/q%d]' % (kind, mode.replace(' ', '_'), qdeg), tiers=tiers, cap=600)(ob)
 
 
@@ -829,7 +877,7 @@ def _sumrule_spec(loc, n):
     return spec
 
 
-SUM_QUICK = [('green_lagrange', 'pin0_roller1y', 2, 'plane strain'), ('neohookean', 'node2_fixed_node3_x', 1, 'plane strain'), ('linear', 'pin0_roller1y', 2, 'axisymmetric')]
+SUM_QUICK = [('anisotropic_state', 'pin0_roller1y', 2, 'plane strain'), ('green_lagrange', 'pin0_roller1y', 2, 'plane strain'), ('neohookean', 'node2_fixed_node3_x', 1, 'plane strain'), ('linear', 'pin0_roller1y', 2, 'axisymmetric')]
 SUM_THOROUGH = [('neohookean', 'free', 1, 'plane strain'), ('synthetic', 'node2_fixed_node3_x', 2, 'plane strain'), ('green_lagrange', 'free', 2, 'axisymmetric'),
                 ('neohookean', 'pin0_roller1y', 1, 'axisymmetric')]
 
